@@ -245,7 +245,7 @@ def main(tier, write_baseline=False):
         seen_.add(o["name"])
         cand = next(((c_, ir_, w_) for k_, (c_, ir_, w_) in fails.items() if k_[0] == "default"), None)
         run.violation(o["name"], "obligation refuted by %s on path %s" % (o["backend"], " ".join(o["trace"])),
-                      failing_input=common.model_replay("contracts.C08", o) or common.model_replay("contracts.C01", o) or ({"cell": list(cand[0]), "ir": json.loads(json.dumps(cand[1], default=str)), "what": cand[2][:300]} if cand else None),
+                      failing_input=(common.set_default_doc_replay() if ":set_default_doc/" in o["name"] else None) or common.model_replay("contracts.C08", o) or common.model_replay("contracts.C01", o) or ({"cell": list(cand[0]), "ir": json.loads(json.dumps(cand[1], default=str)), "what": cand[2][:300]} if cand else None),
                       solver_output={"model": o["model"], "smt2": (o["smt2"] or "")[:3000]})
     M.report(run, "C04/bounded", fails)
     M.flush_raise_baseline()
